@@ -535,4 +535,187 @@ theorem capG_sound {W : World} {inner : List GId} {b : GraphT} {k : GId} {v : VI
       · exact Or.inl hk
     · exact Or.inr ⟨s, SubG.deeper hn hc hs, hk, hu⟩
 
+/-! ## soundness against the structural free variables, under scoping by owner -/
+
+/-- no graph of the subtree of `s` (its own id included) owns `v` -/
+def NoOwnIn (W : World) (s : GraphT) (v : VId) : Prop := ∀ j, j ∈ gidsG s → W.graphOf v ≠ some j
+
+theorem scopedGsB_mem {W : World} {all chain : List GId} {bs : List GraphT} {c : GraphT}
+    (h : scopedGsB W all chain bs = true) (hc : c ∈ bs) : scopedGB W all chain c = true := by
+  induction bs with
+  | nil => cases hc
+  | cons a t ih =>
+    rw [scopedGsB, Bool.and_eq_true] at h
+    rcases List.mem_cons.mp hc with rfl | hc
+    · exact h.1
+    · exact ih h.2 hc
+
+theorem scopedNsB_mem {W : World} {all chain : List GId} {ns : List NodeT} {n : NodeT}
+    (h : scopedNsB W all chain ns = true) (hn : n ∈ ns) : scopedNB W all chain n = true := by
+  induction ns with
+  | nil => cases hn
+  | cons a t ih =>
+    rw [scopedNsB, Bool.and_eq_true] at h
+    rcases List.mem_cons.mp hn with rfl | hn
+    · exact h.1
+    · exact ih h.2 hn
+
+theorem gidsG_eq (b : GraphT) : gidsG b = b.gid :: gidsNs b.nodes := by
+  cases b; simp [gidsG]
+
+theorem scopedGB_ids {W : World} {all chain : List GId} {b : GraphT} (h : scopedGB W all chain b = true) :
+    ∀ j, j ∈ gidsG b → ¬ j ∈ chain ∧ j ∈ all := by
+  cases b with
+  | mk gid i w o ns =>
+    rw [scopedGB, Bool.and_eq_true] at h
+    intro j hj
+    have := List.all_eq_true.mp h.1 j (by rw [gidsG] at hj; exact hj)
+    simpa using this
+
+theorem scopedGB_nodes {W : World} {all chain : List GId} {b : GraphT} (h : scopedGB W all chain b = true) :
+    scopedNsB W all (b.gid :: chain) b.nodes = true := by
+  cases b with
+  | mk gid i w o ns => rw [scopedGB, Bool.and_eq_true] at h; exact h.2
+
+theorem gidsG_sub {b c : GraphT} {n : NodeT} (hn : n ∈ b.nodes) (hc : c ∈ n.bodies) :
+    ∀ j, j ∈ gidsG c → j ∈ gidsG b := by
+  intro j hj
+  exact (mem_gidsG b j).mpr (NestedIn.deeper hn hc ((mem_gidsG c j).mp hj))
+
+theorem self_mem_gidsG (b : GraphT) : b.gid ∈ gidsG b := (mem_gidsG b b.gid).mpr NestedIn.self
+
+theorem addsTo_tail {W : World} {g : GId} {chain : List GId} {v : VId} {k : GId}
+    (h : AddsTo W (g :: chain) v k) (hk : k ≠ g) : W.graphOf v ≠ some g ∧ AddsTo W chain v k := by
+  unfold AddsTo at *
+  by_cases hg : (!(W.graphOf v == some g)) = true
+  · simp only [List.takeWhile_cons, hg, if_true] at h
+    rcases List.mem_cons.mp h with rfl | h'
+    · exact absurd rfl hk
+    · exact ⟨by simpa using hg, h'⟩
+  · simp [List.takeWhile_cons, hg] at h
+
+/-- with non-repeating ids, an id of an enclosing graph is reached only after the whole path below passed -/
+theorem capG_addsTo {W : World} {all : List GId} {inner : List GId} {b : GraphT} {k : GId} {v : VId}
+    (h : CapG W inner b k v) (hs : scopedGB W all inner b = true) (hk : k ∈ inner) :
+    AddsTo W (b.gid :: inner) v k := by
+  induction h with
+  | here _ _ ha => exact ha
+  | @deeper inner b c n k v hn hc _ ih =>
+    have hsn := scopedNsB_mem (scopedGB_nodes hs) hn
+    have hsc : scopedGB W all (b.gid :: inner) c = true := by
+      cases n with
+      | mk ins outs bs =>
+        rw [scopedNB, Bool.and_eq_true] at hsn
+        exact scopedGsB_mem hsn.2 hc
+    have h1 := ih hsc (List.mem_cons_of_mem _ hk)
+    have hne : k ≠ c.gid := by
+      intro e
+      have := (scopedGB_ids hs c.gid (gidsG_sub hn hc _ (self_mem_gidsG c))).1
+      exact this (e ▸ hk)
+    exact (addsTo_tail h1 hne).2
+
+theorem ownerOK_elim {W : World} {all chain : List GId} {v : VId} (h : ownerOKB W all chain v = true) :
+    (∃ j, j ∈ chain ∧ W.graphOf v = some j) ∨ (∀ j, j ∈ all → W.graphOf v ≠ some j) := by
+  unfold ownerOKB at h
+  rw [Bool.or_eq_true] at h
+  rcases h with h | h
+  · left
+    simp only [List.contains_eq_mem, decide_eq_true_eq, List.mem_map] at h
+    obtain ⟨j, hj, e⟩ := h
+    exact ⟨j, hj, e.symm⟩
+  · right
+    intro j hj e
+    simp only [List.contains_eq_mem, Bool.not_eq_eq_eq_not, Bool.not_true, decide_eq_false_iff_not,
+      List.mem_map, not_exists, not_and] at h
+    exact h j hj e.symm
+
+/-- the strengthened induction: where the owner can be, and for which graph the value is recorded -/
+theorem capG_free {W : World} {all : List GId} {inner : List GId} {b : GraphT} {k : GId} {v : VId}
+    (h : CapG W inner b k v) (hs : scopedGB W all inner b = true) :
+    ((∃ j, (j ∈ gidsG b ∨ j ∈ inner) ∧ W.graphOf v = some j) ∨ (∀ j, j ∈ all → W.graphOf v ≠ some j)) ∧
+    ((k ∈ inner ∧ NoOwnIn W b v) ∨ ∃ s, SubG b s ∧ s.gid = k ∧ UsedInG s v ∧ NoOwnIn W s v) := by
+  have hkne := (capG_sound h).2
+  induction h with
+  | @here inner b n k v hn hv ha =>
+    have hsn := scopedNsB_mem (scopedGB_nodes hs) hn
+    have hown : ownerOKB W all (b.gid :: inner) v = true := by
+      cases n with
+      | mk ins outs bs =>
+        rw [scopedNB, Bool.and_eq_true] at hsn
+        exact List.all_eq_true.mp hsn.1 v (by simpa [List.mem_filterMap] using hv)
+    have hloc := ownerOK_elim hown
+    have hfact : (∃ j, (j ∈ gidsG b ∨ j ∈ inner) ∧ W.graphOf v = some j) ∨
+        (∀ j, j ∈ all → W.graphOf v ≠ some j) := by
+      rcases hloc with ⟨j, hj, e⟩ | h'
+      · left
+        rcases List.mem_cons.mp hj with rfl | hj
+        · exact ⟨_, Or.inl (self_mem_gidsG b), e⟩
+        · exact ⟨j, Or.inr hj, e⟩
+      · exact Or.inr h'
+    have hhead : W.graphOf v ≠ some b.gid := by
+      intro e
+      unfold AddsTo at ha
+      have : (!(W.graphOf v == some b.gid)) = false := by simp [e]
+      simp [List.takeWhile_cons, this] at ha
+    have hno : NoOwnIn W b v := by
+      intro j hj e
+      have hjs := scopedGB_ids hs j hj
+      rcases hloc with ⟨j', hj', e'⟩ | h'
+      · rw [e] at e'
+        cases e'
+        rcases List.mem_cons.mp hj' with rfl | hj'
+        · exact hhead e
+        · exact hjs.1 hj'
+      · exact h' j hjs.2 e
+    refine ⟨hfact, ?_⟩
+    rcases List.mem_cons.mp (addsTo_mem ha) with rfl | hk
+    · exact Or.inr ⟨b, SubG.self, rfl, UsedInG.node hn (UsedInN.direct hv), hno⟩
+    · exact Or.inl ⟨hk, hno⟩
+  | @deeper inner b c n k v hn hc hcap ih =>
+    have hsn := scopedNsB_mem (scopedGB_nodes hs) hn
+    have hsc : scopedGB W all (b.gid :: inner) c = true := by
+      cases n with
+      | mk ins outs bs =>
+        rw [scopedNB, Bool.and_eq_true] at hsn
+        exact scopedGsB_mem hsn.2 hc
+    obtain ⟨hfactc, hrec⟩ := ih hsc hkne
+    have hsubc : ∀ j, j ∈ gidsG c → j ∈ gidsG b := gidsG_sub hn hc
+    have hfact : (∃ j, (j ∈ gidsG b ∨ j ∈ inner) ∧ W.graphOf v = some j) ∨
+        (∀ j, j ∈ all → W.graphOf v ≠ some j) := by
+      rcases hfactc with ⟨j, hj, e⟩ | h'
+      · left
+        rcases hj with hj | hj
+        · exact ⟨j, Or.inl (hsubc j hj), e⟩
+        · rcases List.mem_cons.mp hj with rfl | hj
+          · exact ⟨_, Or.inl (self_mem_gidsG b), e⟩
+          · exact ⟨j, Or.inr hj, e⟩
+      · exact Or.inr h'
+    refine ⟨hfact, ?_⟩
+    rcases hrec with ⟨hk, hnoc⟩ | ⟨s, hs', hk, hu, hnos⟩
+    · -- `k` is `b` itself or above it: no graph of the subtree of `b` owns `v`
+      have hhead : W.graphOf v ≠ some b.gid := by
+        rcases List.mem_cons.mp hk with rfl | hk'
+        · exact hkne
+        · have hadd := capG_addsTo (CapG.deeper hn hc hcap) hs hk'
+          have hne : k ≠ b.gid := by
+            intro e
+            exact (scopedGB_ids hs b.gid (self_mem_gidsG b)).1 (e ▸ hk')
+          exact (addsTo_tail hadd hne).1
+      have hno : NoOwnIn W b v := by
+        intro j hj e
+        have hjs := scopedGB_ids hs j hj
+        rcases hfactc with ⟨j', hj', e'⟩ | h'
+        · rw [e] at e'
+          cases e'
+          rcases hj' with hj' | hj'
+          · exact hnoc j hj' e
+          · rcases List.mem_cons.mp hj' with rfl | hj'
+            · exact hhead e
+            · exact hjs.1 hj'
+        · exact h' j hjs.2 e
+      rcases List.mem_cons.mp hk with rfl | hk'
+      · exact Or.inr ⟨b, SubG.self, rfl, UsedInG.node hn (UsedInN.nested hc (capG_used hcap)), hno⟩
+      · exact Or.inl ⟨hk', hno⟩
+    · exact Or.inr ⟨s, SubG.deeper hn hc hs', hk, hu, hnos⟩
+
 end IrVerif.Extract
